@@ -35,6 +35,12 @@ def flow_lattice(quick):
         {"mask": [1, -1]},
         {"net": "mlp"},
         {"net": "resnet"},
+        # stochastic / mode-dependent layers: must be inert whenever the public API evaluates
+        {"net": "mlp", "n_layers": 2, "dropout_probability": 0.3},
+        {"net": "resnet", "n_layers": 2, "dropout_probability": 0.3},
+        {"ftype": "maf", "dropout_probability": 0.3},
+        {"ftype": "nsf", "dropout_probability": 0.3},
+        {"distribution": "lars", "distribution_kwargs": {"net_kwargs": {"dropout_probability": 0.3}}},
         {"distribution": "mvn"},
         {"distribution": "mvn", "distribution_kwargs": {"var": 4.0}},
         {"distribution": "mvn", "distribution_kwargs": {"var": 0.25}},
@@ -57,7 +63,7 @@ def flow_lattice(quick):
                 if quick and dtype == "float64" and d and "ftype" not in d:
                     continue
                 for weights in ("fresh", "trained", "reset_weights", "reset_permutations"):
-                    stateful = any(k in d for k in ("batch_norm_between_layers", "actnorm", "pre_transform"))
+                    stateful = any(k in d for k in ("batch_norm_between_layers", "actnorm", "pre_transform", "dropout_probability")) or "net_kwargs" in str(d)
                     if quick and weights in ("reset_weights", "reset_permutations") and d and not (stateful and weights == "reset_weights" and dims == 2):
                         continue
                     cfgs.append(dict(flow={**base, **d, "n_inputs": dims}, dtype=dtype, weights=weights, label=f"{sorted(d.items())}|d={dims}|{dtype}|{weights}"))
